@@ -46,9 +46,18 @@ class Creators:
     """
     if self._version is None:
       self._version = self._version_guess
-    for i in range(0,len(self._line_queue)):
-      self.add_line(self._line_queue[i])
+    # each line is taken out of the queue before it is added, so that it is
+    # never processed twice, even if adding a line of the queue fails;
+    # in that case the lines following the invalid one remain in the queue
+    queue = self._line_queue
     self._line_queue = []
+    n_processed = 0
+    try:
+      for gfa_line in queue:
+        n_processed += 1
+        self.add_line(gfa_line)
+    finally:
+      self._line_queue = queue[n_processed:] + self._line_queue
 
   def _register_line(self, gfa_line):
     self._api_private_check_gfa_line(gfa_line, "_register_line")
